@@ -116,7 +116,7 @@ def generate(R, tier, focus):
             # another forecast file on the same cells with other magnitude bins is loaded later in the process
             ops.append({'op': 'LOAD_OTHER', 'shift': R.choice((0.5, 1.0, 0.05)), 'extra_bins': R.randint(0, 2), 'actor': actor})
         elif x < 0.5:
-            ops.append({'op': 'READ', 'actor': actor})
+            ops.append({'op': 'READ', 'actor': actor, 'scribble': R.random() < 0.3})
         elif x < 0.75:
             pts = []
             for _k in range(R.randint(1, 5)):
@@ -432,6 +432,21 @@ def _execute(scn, ctx, store, clock, rng):
             if mc.shape != (nm,) or abs(float(mc.sum()) - ref) > tol or \
                     not numpy.allclose(mc, d.sum(axis=0), rtol=1e-12, atol=0):
                 ctx.violate('C11', 'marginals', 'magnitude-marginal', {'op': oi, 'got': float(mc.sum()), 'total': ref})
+            if op.get('scribble'):
+                # the caller goes on computing in place on the arrays it was handed (normalising to a pdf, masking ...):
+                # they are the caller's arrays, the forecast keeps its rates
+                ctx.count('fire:caller_modifies_returned_arrays_in_place')
+                for getter, how in ((lambda: fc.data, 'norm'), (lambda: fc.spatial_counts(), 'zero'),
+                                    (lambda: fc.magnitude_counts(), 'inc')):
+                    ra_ = call(getter)
+                    a_ = ra_[1] if ra_[0] == 'ok' else None
+                    if isinstance(a_, numpy.ndarray) and a_.flags.writeable and a_.dtype.kind == 'f':
+                        if how == 'norm':
+                            a_ /= (float(a_.sum()) or 1.0)
+                        elif how == 'zero':
+                            a_ *= 0
+                        else:
+                            a_ += 1
         elif kind == 'LOOKUP':
             for p in op['points']:
                 if p['cell'] >= len(cells):
